@@ -60,7 +60,10 @@ class CtlParser:
 
 
 def observe_server(impl):
-    """Ordered observation tokens of a server run made with cfg `ev=1`."""
+    """Ordered observation tokens of a server run made with cfg `ev=1`: what accept / shutdown answered, the GOAWAY
+    identifiers written, refusals (stop_sending + reset of a request stream), and whether a request shown to the
+    application was then served (`Q=<i>:ok` = resolve_request returned it; `Q=<i>:<error>`; `Q=<i>:pending` if the
+    call never returned although the peer's request was complete)."""
     trace, summ = impl.split(" | ", 1)
     out = []
     ctl = CtlParser()
@@ -85,23 +88,64 @@ def observe_server(impl):
                     out.append("rst%d:%s" % (sid, arg))
         elif t.startswith(("conn.A=", "conn.S=")):
             out.append(t)
+        else:
+            q = re.match(r"^q(\d+)\.res=(.*)$", t)
+            # `no-task` is the interpreter's answer to an op without addressee (the request was never shown to the
+            # application, or its task is gone): nothing reached h3
+            if q and q.group(2) != "no-task":
+                out.append("Q=%s:%s" % (q.group(1), "ok" if q.group(2).startswith("ok:") else q.group(2)))
     if stop is not None:
         out.append("stop%d:%s" % stop)
     pend = "0"
     for t in summ.split():
         if t.startswith("pending=["):
-            pend = "1" if "conn.A" in t[len("pending=["):-1].split(",") else "0"
+            waiting = t[len("pending=["):-1].split(",")
+            pend = "1" if "conn.A" in waiting else "0"
+            for x in waiting:
+                q = re.match(r"^q(\d+)\.res$", x)
+                if q:
+                    out.append("Q=%s:pending" % q.group(1))
     return out, pend
 
 
-def observe_client(impl):
+def observe_client(line, impl):
+    """The client's calls in order; with cfg `ev=1` every `snd.R` result carries the client-initiated bidirectional
+    streams h3 wrote on since the previous result (`/w=<ids>`: a request refused with RemoteClosing must have `/w=-`),
+    other transport events on those streams are tokens of their own, `w=` are the writes after the last call; from the
+    transport's final state `streams=<written>/<opened without a byte>`."""
     trace, summ = impl.split(" | ", 1)
-    toks = [t for t in trace.split() if t.startswith(("drv.W=", "snd.R="))]
+    w = line.split()
+    ev1 = len(w) > 2 and "ev=1" in w[2].split(",")
+    toks, wrote = [], []
+
+    def wlist():
+        r = (",".join(wrote) if wrote else "-") if ev1 else "?"
+        del wrote[:]
+        return r
+
+    for t in trace.split():
+        m = re.match(r"^(w|fin|rst|stop)(\d+)(?::([0-9a-f]+))?$", t)
+        if m and int(m.group(2)) % 4 == 0:
+            if m.group(1) == "w":
+                if m.group(2) not in wrote:
+                    wrote.append(m.group(2))
+            else:
+                toks.append(t)
+        elif t.startswith("snd.R="):
+            toks.append("%s/w=%s" % (t, wlist()))
+        elif t.startswith("drv.W="):
+            toks.append(t)
+    toks.append("w=%s" % wlist())
     pend = "0"
+    written, empty = [], []
     for t in summ.split():
         if t.startswith("pending=["):
             pend = "1" if "drv.W" in t[len("pending=["):-1].split(",") else "0"
-    return "%s pend=%s" % (" ".join(toks) if toks else "-", pend)
+        m = re.match(r"^(\d+):tx=([0-9a-f]+|-)", t)
+        if m and int(m.group(1)) % 4 == 0:
+            (empty if m.group(2) == "-" else written).append(m.group(1))
+    toks.append("streams=%s/%s" % (",".join(written) or "-", ",".join(empty) or "-"))
+    return "%s pend=%s" % (" ".join(toks), pend)
 
 
 def judge(histories):
@@ -131,16 +175,24 @@ class C08(Prop):
                   "oracle (ids valid client-bidi and never increasing; an arrival is surfaced iff below the last id sent; no id "
                   "surfaced earlier is at or above an id sent later — the last clause below the saturation point 2^60-1); client: "
                   "H3_ID_ERROR exactly for a non-request id or an id larger than before, and once a GOAWAY was processed send_request "
-                  "returns RemoteClosing without opening a stream, for ever")
+                  "returns RemoteClosing without opening a stream, for ever; a request in progress is served (resolve_request "
+                  "returns it) in every state of the shutdown; accept answers None — also right after a refusal during a local "
+                  "shutdown — exactly when no request shown earlier is still in progress")
     level_note = ("trusted: Lean kernel + 3 standard axioms; hand model tied to the code by running real h3::server / h3::client "
                   "objects over SimQuic on the same scenario lines (Drv/C08.lean plays the harness tasks); the accept/reject line is "
                   "judged where accept() takes the stream from the transport (R-08); shutdown futures are awaited to completion and "
                   "the control stream has write credit (R-14)")
     rule = ("cases: server histories with K<=5 (quick) / K<=6 requests, arrivals in order, reversed and swapped, accept driven by "
             "explicit conn.A calls or the accept loop conn.AL, conn.S:n with n in 0..3 inserted at every position and repeated, "
-            "completions (HEADERS, resolve, drop), a peer GOAWAY at a random position, plus seeded random histories; client: all "
+            "completions (HEADERS, resolve, drop), a peer GOAWAY at a random position, plus seeded random histories; observed per "
+            "line, in order: accept / shutdown answers, GOAWAY ids written, refusals (stop_sending + reset codes), and for every "
+            "resolve_request of a request shown to the application whether it returned the request (Q=<i>:ok; an error or a "
+            "call that never returns is `not served`) — resolve after local shutdown / peer GOAWAY / refusals / None / H3_ID_ERROR; "
+            "the judge (engine goawayj = H3.Spec.Goaway.okObs) refuses unknown tokens (BAD:unknown-token); client (cfg ev=1): all "
             "received-id sequences of length<=4 over {0,3,4,8,64} plus sequences with ids 1,2,5,12,16383,16384, driver started "
-            "early/late, send_request before/between/after; non-trivial = the implementation wrote a GOAWAY, refused a stream, "
+            "early/late, send_request before/between/after; every send_request result carries the request streams written while "
+            "it ran (a refused request must have written nothing: snd.R=err:rclosing/w=-), plus the streams written at the end "
+            "(streams=<written>/<opened empty>); non-trivial = the implementation wrote a GOAWAY, refused a stream, "
             "returned None/err from accept, or the client driver/send_request reacted to a GOAWAY")
     trusted = ["SimQuic hands streams to accept in the order of the scenario's `o<sid>` ops (QUIC may reorder arrivals; the order is a quantified input)"]
     assumptions = ["peer-opened bidirectional streams have client-initiated bidirectional IDs below 2^62 (transport contract)",
@@ -160,7 +212,7 @@ class C08(Prop):
                 hist.append(toks)
                 pends.append(pend)
             else:
-                res[k] = observe_client(o)
+                res[k] = observe_client(l, o)
         for k, toks, pend, v in zip(idx, hist, pends, judge(hist)):
             res[k] = "%s %s pend=%s" % (v, " ".join(toks) if toks else "-", pend)
         return res
@@ -199,6 +251,23 @@ class C08(Prop):
         add(self.server_line(["o0", "conn.A", "conn.S:1", "o4", "conn.A"] + done(0) + done(4) + ["o8", "conn.A"]))
         add(self.server_line(["conn.AL", "o0"] + done(0) + ["o4"] + done(4) + ["o8"] + done(8) + ["o12", "conn.S:2"] + done(12)
                              + ["o16"] + done(16) + ["o20"] + done(20) + ["o24"]))
+
+        # "every request below it is still served": resolve_request AFTER the shutdown began — local shutdown(0) / (1),
+        # the peer's GOAWAY, both, after a refusal, after accept answered None, on a failed connection (H3_ID_ERROR)
+        hdr = lambda i: "s%d:%s" % (i, HOK)
+        add(self.server_line(["o0", "conn.A", "conn.S:0", hdr(0), "q0.res", "q0.dr", "conn.A"]))
+        add(self.server_line(["o0", "conn.A", "s2:070100", "conn.A", hdr(0), "q0.res", "q0.dr"]))
+        add(self.server_line(["o0", "conn.A", "conn.S:1", "o4", "conn.A", "o8", "conn.A", hdr(4), "q4.res", hdr(0), "q0.res",
+                              "q4.dr", "q0.dr", "conn.A"]))
+        add(self.server_line(["conn.AL", "o0", "conn.S:0", "o4", hdr(0), "q0.res", "s2:070100", "q0.dr"]))
+        add(self.server_line(["o0", "o4", "conn.A", "conn.A", hdr(4), "q4.res", "q4.dr", "conn.S:0", "o8", "conn.A", hdr(0), "q0.res",
+                              "q0.dr", "conn.A"]))
+        add(self.server_line(["o0", "conn.A", "s2:070104", "conn.A", "s2:070108", "conn.A", "conn.S:0", hdr(0), "q0.res", "q0.dr"]))
+        add(self.server_line(["conn.S:2", "o4", "o0", "conn.A", "conn.A", "conn.S:0", hdr(0), "q0.res", hdr(4), "q4.res"]))
+        # request 0 is never dropped (accept keeps waiting after refusing request 4); it is resolved after both GOAWAYs
+        add(self.server_line(["o0", "conn.A", "conn.S:0", "o4", "conn.A", "s2:070100", hdr(0), "q0.res"]))
+        # request 0 resolved after request 4 was refused; its drop lets the next refusal (request 8) end accept with None
+        add(self.server_line(["o0", "o4", "conn.A", "conn.S:0", "conn.AL", hdr(0), "q0.res", "q0.dr", "o8"]))
 
         # systematic: bases x shutdown(n) at every position
         maxk = 6 if big else 5
@@ -316,7 +385,7 @@ class C08(Prop):
                 ops.append(REQ)
                 if rng.random() < 0.3:
                     ops.append(REQ)
-                add(" ".join(["goaway", "client", rng.choice(["g0", "g0", "g0,seed=1", "g0,seed=5"])] + ops))
+                add(" ".join(["goaway", "client", rng.choice(["g0,ev=1", "g0,ev=1", "g0,ev=1,seed=1", "g0,ev=1,seed=5"])] + ops))
         return L
 
     def klass(self, line, impl):
@@ -330,7 +399,7 @@ class C08(Prop):
             nr = sum(1 for x in t if x.startswith("R="))
             return "server/%s/goaways=%d/rej=%d/none=%d/err=%d" % (t[0].split(":")[0], min(ng, 3), min(nr, 3),
                                                                    int("conn.A=none" in t), int(any(x.startswith("conn.A=err") for x in t)))
-        return "client/err=%d/rclosing=%d/opened=%d" % (int(any(x.startswith("drv.W=err") for x in t)), int("snd.R=err:rclosing" in t),
+        return "client/err=%d/rclosing=%d/opened=%d" % (int(any(x.startswith("drv.W=err") for x in t)), int(any(x.startswith("snd.R=err:rclosing") for x in t)),
                                                         int(any(x.startswith("snd.R=req") for x in t)))
 
     def trivial(self, line, impl):
@@ -344,8 +413,9 @@ class C08(Prop):
         out = []
         for i in range(3, len(w)):
             out.append(" ".join(w[:i] + w[i + 1:]))
-        if len(w) > 2 and w[2] != "g0":
-            out.append(" ".join(w[:2] + ["g0"] + w[3:]))
+        # the simplest configuration that still records the transport events (the observations depend on `ev=1`)
+        if len(w) > 2 and w[2] != "g0,ev=1":
+            out.append(" ".join(w[:2] + ["g0,ev=1"] + w[3:]))
         return out
 
 
